@@ -33,6 +33,7 @@ import numpy
 
 from ..extract import HEADER, Src, lean_list, lean_str
 from . import c05_frames as fr
+from . import c05_rowclass as rc
 
 PINNED = [["BOOLEAN", "bool"], ["BLOB", "bytes"], ["DATE", "date"], ["TIMESTAMP", "datetime"], ["TIME", "time"],
           ["INTERVAL", "timedelta"], ["STRUCT", "dict"], ["DECIMAL", "Decimal"], ["DOUBLE", "float"], ["INTEGER", "int"],
@@ -542,6 +543,23 @@ def generate(o):
     st = o.item("dataframe.append.steps", steps, PIN_STEPS)
     st = [s for s in st if s in STEP_NAMES]
 
+    def validate_guard():
+        """does `append` validate only when the frame's schema is a RelationSchema (a frame built from dictionaries or
+        on a list of names has no schema object to validate against)?"""
+        fn = _method(_cls(frame.tree, "DataFrame"), "append")
+        for top in fn.body:
+            for n in ast.walk(top):
+                if isinstance(n, ast.Call) and isinstance(n.func, ast.Attribute) and n.func.attr == "validate":
+                    if isinstance(top, ast.If) and ast.unparse(top.test) == "isinstance(self._schema, RelationSchema)" \
+                            and any(n in list(ast.walk(b)) for b in top.body):
+                        return True
+                    if top is not None and not isinstance(top, ast.If):
+                        return False
+                    raise Unrecognised("validate under %s" % ast.unparse(top.test)[:50])
+        raise Unrecognised("no validate call")
+
+    guarded = o.item("dataframe.append.validate_guard", validate_guard, True)
+
     t = HEADER + "set_option linter.unusedVariables false\nnamespace Gen.ValidateFlow\n"
     t += "/-- how `validate` exits -/\ninductive Exit where\n  | typeError | excess | invalid | ok | other\n  deriving DecidableEq, Repr\n"
     t += "/-- what `DataFrame.append` does, statement by statement -/\ninductive Step where\n  | validate | coerce | build | size | materialize | store | count | cursor\n  deriving DecidableEq, Repr\n"
@@ -564,6 +582,8 @@ def generate(o):
     t += "/-- the error-dict keys used in the loop -/\ndef errorKeys : List String := %s\n" % lean_list(fl["keys"], lean_str)
     t += "/-- dataframe.py `DataFrame.append`: its statements in source order -/\n"
     t += "def appendSteps : List Step := %s\n" % lean_list(st, lambda s: "Step." + s)
+    t += "/-- dataframe.py `DataFrame.append`: is the record validated only when the frame's schema is a RelationSchema? -/\n"
+    t += "def appendValidateGuarded : Bool := %s\n" % ("true" if guarded else "false")
     t += "/-- dataclass fields of RelationSchema that `validate` reads (through properties and helper methods) -/\n"
     t += "def schemaReads : List String := %s\n" % lean_list(rd["schema"], lean_str)
     t += "/-- dataclass fields of a column that `validate` reads -/\n"
@@ -589,3 +609,9 @@ def generate(o):
         "errors": o.item("exceptions.validation.errors", lambda: fr.error_classes(Src("orso/exceptions.py").tree), fr.PIN_ERRORS),
     }
     o.files["AppendFlow.lean"] = fr.lean_text(HEADER, items)
+
+    # ---- where a frame's row class comes from
+    conv = Src("orso/converters.py")
+    facts = o.item("row.create_class", lambda: rc.create_class_facts(rowsrc.tree), rc.PIN)
+    flags = o.item("row.create_class.callers", lambda: rc.call_flags(rowsrc.tree, frame.tree, conv.tree), rc.PIN_FLAGS)
+    o.files["RowClass.lean"] = rc.lean_text(HEADER, facts, flags)
